@@ -1,4 +1,4 @@
-import SignalGen.Eq.BitDepth
+import SignalGen.Generated
 import SignalProofs.Lemmas.Quant
 /-!
 # Regenerated tie, C06 / C07: the four fixed→fixed per-sample kernels as the Go source defines them now
@@ -13,9 +13,7 @@ namespace Sig.GenEq
 open Sig
 
 macro "kernel_eq_tac" : tactic => `(tactic|
-  (simp only [Gen.SignedAsSigned_k, Gen.SignedAsUnsigned_k, Gen.UnsignedAsSigned_k, Gen.UnsignedAsUnsigned_k]
-   simp (disch := decide) only [scale4, msv4]
-   simp [Gen.shl, Gen.shr, Gen.goMod, Gen.tI8, Gen.tI16, Gen.tI32, Gen.tI64, Gen.tU8, Gen.tU16, Gen.tU32, Gen.tU64,
+  (simp [gen, Gen.shl, Gen.shr, Gen.goMod, Gen.tI8, Gen.tI16, Gen.tI32, Gen.tI64, Gen.tU8, Gen.tU16, Gen.tU32, Gen.tU64,
          sasK, sauK, uasK, uauK, scale, maxSignedValue,
          IntTy.wrap, wrapS, wrapU, inS, inU, goDiv_eq, truncDiv] at *
    <;> (repeat' split) <;> (try simp only [Option.some.injEq]) <;> omega))
